@@ -166,6 +166,28 @@ def corpus():
     cs.append({"steps": [["new", "Table:t1"], ["new", "Table:t2"], ["new", "Tuple"], ["new", "QueryBuilder"],
                          _call(3, "from_", _r(0)), _call(4, "select", _r(2)), _call(5, "replace_table", _r(0), _r(1)),
                          _call(5, "replace_table", _r(0), _r(1))], "theme": "corpus", "twin": False, "repeats": []})
+    # the undecorated dialect overrides of replace_table (copy obtained from super().replace_table), branching + mutable twin
+    def fld(n, t):
+        return {"k": "field", "n": n, "t": _r(t)}
+    for kind, prep in (("MySQLQueryBuilder", [("into", [_r(0)], {}), ("insert", [{"k": "int", "v": 1}], {}),
+                                              ("on_duplicate_key_update", [fld("a", 0), {"k": "int", "v": 2}], {})]),
+                       ("PostgreSQLQueryBuilder", [("into", [_r(0)], {}), ("insert", [{"k": "int", "v": 1}], {}),
+                                                   ("on_conflict", [fld("a", 0)], {}), ("do_update", [fld("b", 0), {"k": "int", "v": 3}], {}),
+                                                   ("returning", [fld("c", 0)], {})]),
+                       ("PostgreSQLQueryBuilder", [("from_", [_r(0)], {}), ("select", [fld("a", 0)], {}), ("distinct_on", [fld("b", 0)], {})]),
+                       ("ClickHouseQueryBuilder", [("from_", [_r(0)], {}), ("select", [fld("a", 0)], {}), ("distinct_on", [fld("b", 0)], {}),
+                                                   ("limit_by", [{"k": "int", "v": 1}, fld("c", 0)], {})])):
+        for mut in (False, True):
+            steps = [["new", "Table:t1"], ["new", "Table:t2"], ["new", "Table:t3"], ["new", ("mutable:" if mut else "") + kind]]
+            cur = 3
+            for m_, a_, k_ in prep:
+                steps.append(["call", cur, m_, a_, k_])
+                if not mut:
+                    cur += 1                    # one new object (the copy) per call
+            steps += [_call(cur, "replace_table", _r(0), _r(1)), _call(cur, "replace_table", _r(0), _r(2))]
+            if not mut:
+                steps += [_call(cur + 1, "replace_table", _r(1), _r(2))]
+            cs.append({"steps": steps, "theme": "twin" if mut else "corpus", "twin": False, "repeats": []})
     # immutable=False through EVERY public entry point of every query class: the option must arrive, every chaining call must
     # return the one object, and the chain must end in the statement of the immutable twin
     from harness.c01.world import ENTRY_POINTS, QUERY_CLASSES
